@@ -41,8 +41,21 @@ type diskProject struct {
 }
 
 func materialize(c *Case) (*diskProject, error) {
-	tmp, err := os.MkdirTemp("", "verifh-")
-	if err != nil {
+	// one directory per worker process, reused by every case it runs: consecutive builds of
+	// different projects see the same absolute paths (what a process-wide cache keyed by path,
+	// or anything else that survives a build, would confuse)
+	if workerTmp == "" {
+		workerTmp = os.Getenv("VERIF_WORKER_TMP")
+	}
+	if workerTmp == "" {
+		t, err := os.MkdirTemp("", "verifh-")
+		if err != nil {
+			return nil, err
+		}
+		workerTmp = t
+	}
+	tmp := workerTmp
+	if err := os.RemoveAll(filepath.Join(tmp, "outer")); err != nil {
 		return nil, err
 	}
 	dp := &diskProject{tmp: tmp, projDir: filepath.Join(tmp, "outer", "proj")}
@@ -69,7 +82,9 @@ func materialize(c *Case) (*diskProject, error) {
 	return dp, nil
 }
 
-func (dp *diskProject) cleanup() { os.RemoveAll(dp.tmp) }
+var workerTmp string
+
+func (dp *diskProject) cleanup() { os.RemoveAll(filepath.Join(dp.tmp, "outer")) }
 
 func (dp *diskProject) rel(p string) string {
 	r, err := filepath.Rel(dp.projDir, p)
